@@ -41,11 +41,21 @@ const PREFIX_LIMIT: u32 = 4;
 type FSet = u8;
 
 fn fset_vec(s: FSet) -> Vec<Family> {
-    (0..2).filter(|i| s & (1 << i) != 0).map(|i| FAMS[i]).collect()
+    (0..2)
+        .filter(|i| s & (1 << i) != 0)
+        .map(|i| FAMS[i])
+        .collect()
 }
 fn fset_str(s: FSet) -> String {
-    let v: Vec<&str> = (0..2).filter(|i| s & (1 << i) != 0).map(|i| FNAME[i]).collect();
-    if v.is_empty() { "-".into() } else { v.join("+") }
+    let v: Vec<&str> = (0..2)
+        .filter(|i| s & (1 << i) != 0)
+        .map(|i| FNAME[i])
+        .collect();
+    if v.is_empty() {
+        "-".into()
+    } else {
+        v.join("+")
+    }
 }
 fn fidx(f: Family) -> Option<usize> {
     FAMS.iter().position(|x| *x == f)
@@ -116,13 +126,29 @@ enum DropHow {
 
 #[derive(Clone, Debug, PartialEq)]
 enum Op {
-    Connect { spec: CapSpec, outcome: ConnOutcome },
-    Announce { fam: usize, pfx: u8, kind: AttrKind },
-    Withdraw { fam: usize, pfx: u8 },
-    Eor { fam: usize },
-    Drop { how: DropHow },
+    Connect {
+        spec: CapSpec,
+        outcome: ConnOutcome,
+    },
+    Announce {
+        fam: usize,
+        pfx: u8,
+        kind: AttrKind,
+    },
+    Withdraw {
+        fam: usize,
+        pfx: u8,
+    },
+    Eor {
+        fam: usize,
+    },
+    Drop {
+        how: DropHow,
+    },
     FireRestart,
-    FireLlgr { fam: usize },
+    FireLlgr {
+        fam: usize,
+    },
     /// API reset/shutdown while no session is up (fires the pending timers)
     ForceDownIdle,
 }
@@ -130,9 +156,18 @@ enum Op {
 impl Op {
     fn kind(&self) -> &'static str {
         match self {
-            Op::Connect { outcome: ConnOutcome::Full, .. } => "connect-ok",
-            Op::Connect { outcome: ConnOutcome::DieBeforeOpen, .. } => "reconnect-fail-before-open",
-            Op::Connect { outcome: ConnOutcome::DieAfterOpen, .. } => "reconnect-fail-after-open",
+            Op::Connect {
+                outcome: ConnOutcome::Full,
+                ..
+            } => "connect-ok",
+            Op::Connect {
+                outcome: ConnOutcome::DieBeforeOpen,
+                ..
+            } => "reconnect-fail-before-open",
+            Op::Connect {
+                outcome: ConnOutcome::DieAfterOpen,
+                ..
+            } => "reconnect-fail-after-open",
             Op::Announce { .. } => "announce",
             Op::Withdraw { .. } => "withdraw",
             Op::Eor { .. } => "eor",
@@ -198,7 +233,10 @@ fn has_comm(attr: &[packet::Attribute], c: u32) -> bool {
     attr.iter()
         .find(|a| a.code() == packet::Attribute::COMMUNITY)
         .and_then(|a| a.binary())
-        .is_some_and(|b| b.chunks(4).any(|x| x.len() == 4 && u32::from_be_bytes([x[0], x[1], x[2], x[3]]) == c))
+        .is_some_and(|b| {
+            b.chunks(4)
+                .any(|x| x.len() == 4 && u32::from_be_bytes([x[0], x[1], x[2], x[3]]) == c)
+        })
 }
 
 fn observe(tables: &TableHandle, ctx: &Arc<std::sync::Mutex<PeerContext>>, addr: IpAddr) -> Obs {
@@ -243,7 +281,12 @@ fn observe(tables: &TableHandle, ctx: &Arc<std::sync::Mutex<PeerContext>>, addr:
             llgr_timers |= 1 << i;
         }
     }
-    Obs { paths, gr_timer, llgr_timers, restarting: c.gr_state.is_peer_restarting() }
+    Obs {
+        paths,
+        gr_timer,
+        llgr_timers,
+        restarting: c.gr_state.is_peer_restarting(),
+    }
 }
 
 /// Quiescence of the timer machinery, by state: every armed slot has exactly
@@ -256,7 +299,9 @@ async fn wait_quiet(ctx: &Arc<std::sync::Mutex<PeerContext>>, base: usize) -> Re
     loop {
         let armed = {
             let c = ctx.lock().unwrap();
-            c.gr_restart_timer.is_some() as usize + c.llgr_family_timers.len() + c.rtc_eor_timer.is_some() as usize
+            c.gr_restart_timer.is_some() as usize
+                + c.llgr_family_timers.len()
+                + c.rtc_eor_timer.is_some() as usize
         };
         let strong = Arc::strong_count(ctx);
         if strong == base + armed {
@@ -309,15 +354,36 @@ fn classify(how: DropHow, negotiated_any: bool, nbit: bool) -> (DropClass, &'sta
         DropHow::TcpRst | DropHow::TcpFin => (DropClass::MustHelp, "tcp-close"),
         DropHow::Notif(6, 9) => (DropClass::MustNot, "hard-reset"),
         DropHow::Notif(6, _) | DropHow::MaxPrefix => {
-            if nbit { (DropClass::Either, "cease-nbit") } else { (DropClass::MustNot, "notification-no-nbit") }
+            if nbit {
+                (DropClass::Either, "cease-nbit")
+            } else {
+                (DropClass::MustNot, "notification-no-nbit")
+            }
         }
         DropHow::Notif(4, _) | DropHow::HoldTimer => {
-            if nbit { (DropClass::Either, "hold-timer-nbit") } else { (DropClass::MustNot, "notification-no-nbit") }
+            if nbit {
+                (DropClass::Either, "hold-timer-nbit")
+            } else {
+                (DropClass::MustNot, "notification-no-nbit")
+            }
         }
-        DropHow::Notif(_, _) | DropHow::Garbage => (DropClass::MustNot, if nbit { "non-cease-error-nbit" } else { "non-cease-error" }),
-        DropHow::ApiShutdown | DropHow::ApiReset | DropHow::ApiSilent => (DropClass::MustNot, "admin-shutdown"),
+        DropHow::Notif(_, _) | DropHow::Garbage => (
+            DropClass::MustNot,
+            if nbit {
+                "non-cease-error-nbit"
+            } else {
+                "non-cease-error"
+            },
+        ),
+        DropHow::ApiShutdown | DropHow::ApiReset | DropHow::ApiSilent => {
+            (DropClass::MustNot, "admin-shutdown")
+        }
     };
-    if negotiated_any { (c, l) } else { (DropClass::Plain, l) }
+    if negotiated_any {
+        (c, l)
+    } else {
+        (DropClass::Plain, l)
+    }
 }
 
 #[derive(Clone, Debug)]
@@ -336,14 +402,32 @@ struct Live {
 /// What the executor did (abstract event), judged against pre/post observations.
 #[derive(Clone, Debug)]
 enum Ev {
-    Established { spec: CapSpec },
-    ReconnectFail { after_open: bool },
-    Announced { fam: usize, pfx: u8, tag: u32, kind: AttrKind },
-    Withdrawn { fam: usize, pfx: u8 },
-    Eor { fam: usize },
-    Dropped { how: DropHow },
+    Established {
+        spec: CapSpec,
+    },
+    ReconnectFail {
+        after_open: bool,
+    },
+    Announced {
+        fam: usize,
+        pfx: u8,
+        tag: u32,
+        kind: AttrKind,
+    },
+    Withdrawn {
+        fam: usize,
+        pfx: u8,
+    },
+    Eor {
+        fam: usize,
+    },
+    Dropped {
+        how: DropHow,
+    },
     RestartFired,
-    LlgrFired { fam: usize },
+    LlgrFired {
+        fam: usize,
+    },
     ForcedDownIdle,
 }
 
@@ -383,7 +467,13 @@ struct Model {
 
 impl Model {
     fn new(cfg: &LocalCfg) -> Model {
-        Model { cfg: cfg.clone(), live: None, epochs: 0, retained_stale: false, judged_after_retention: false }
+        Model {
+            cfg: cfg.clone(),
+            live: None,
+            epochs: 0,
+            retained_stale: false,
+            judged_after_retention: false,
+        }
     }
 
     /// negotiation per RFC 4724 / 8538 / 9494: intersection of what both sides advertised
@@ -431,11 +521,19 @@ impl Model {
                 label = "established".into();
                 if self.retained_stale {
                     self.judged_after_retention = true;
-                    st.add(if gr != 0 { "established:after-retention:gr-renegotiated" } else { "established:after-retention:no-gr" });
+                    st.add(if gr != 0 {
+                        "established:after-retention:gr-renegotiated"
+                    } else {
+                        "established:after-retention:no-gr"
+                    });
                 }
             }
             Ev::ReconnectFail { after_open } => {
-                label = if *after_open { "reconnect-fail-after-open".into() } else { "reconnect-fail-before-open".into() };
+                label = if *after_open {
+                    "reconnect-fail-after-open".into()
+                } else {
+                    "reconnect-fail-before-open".into()
+                };
                 if pre.gr_timer || pre.llgr_timers != 0 {
                     st.add("I6:judged");
                     self.judged_after_retention = true;
@@ -452,7 +550,11 @@ impl Model {
                             clause: "I6",
                             event: label.clone(),
                             fact: "llgr-timer-disarmed".into(),
-                            detail: format!("LLGR timers {} armed before, {} after", fset_str(pre.llgr_timers), fset_str(post.llgr_timers)),
+                            detail: format!(
+                                "LLGR timers {} armed before, {} after",
+                                fset_str(pre.llgr_timers),
+                                fset_str(post.llgr_timers)
+                            ),
                         });
                     }
                     if pre.paths.iter().any(|p| !post.paths.contains(p)) {
@@ -460,7 +562,12 @@ impl Model {
                     }
                 }
             }
-            Ev::Announced { fam, pfx, tag, kind } => {
+            Ev::Announced {
+                fam,
+                pfx,
+                tag,
+                kind,
+            } => {
                 label = "announce".into();
                 check_i5 = false;
                 if let Some(l) = self.live.as_mut() {
@@ -479,12 +586,19 @@ impl Model {
                 if let Some(l) = self.live.as_mut() {
                     l.eor_seen |= 1 << fam;
                 }
-                let had = pre.paths.iter().any(|p| p.fam == *fam && self.stale_like(p));
+                let had = pre
+                    .paths
+                    .iter()
+                    .any(|p| p.fam == *fam && self.stale_like(p));
                 if had {
                     st.add("I4:eor:judged");
                     self.judged_after_retention = true;
                 }
-                let left: Vec<&PathObs> = post.paths.iter().filter(|p| p.fam == *fam && self.stale_like(p)).collect();
+                let left: Vec<&PathObs> = post
+                    .paths
+                    .iter()
+                    .filter(|p| p.fam == *fam && self.stale_like(p))
+                    .collect();
                 if !left.is_empty() {
                     skip_i1 |= 1 << fam;
                     out.push(Finding {
@@ -509,7 +623,11 @@ impl Model {
                 let judge_i2 = match class {
                     DropClass::MustHelp => true,
                     DropClass::Either => {
-                        st.add(if entered { "either:helper-entered" } else { "either:helper-not-entered" });
+                        st.add(if entered {
+                            "either:helper-entered"
+                        } else {
+                            "either:helper-not-entered"
+                        });
                         entered
                     }
                     _ => false,
@@ -518,15 +636,22 @@ impl Model {
                     st.add("I2:judged");
                     let _ = fams;
                     for f in 0..2 {
-                        let pre_f: Vec<&PathObs> = pre.paths.iter().filter(|p| p.fam == f).collect();
-                        let post_f: Vec<&PathObs> = post.paths.iter().filter(|p| p.fam == f).collect();
+                        let pre_f: Vec<&PathObs> =
+                            pre.paths.iter().filter(|p| p.fam == f).collect();
+                        let post_f: Vec<&PathObs> =
+                            post.paths.iter().filter(|p| p.fam == f).collect();
                         if has(neg, f) {
                             let llgr_started = has(post.llgr_timers, f) && !post.gr_timer;
                             let lost = pre_f
                                 .iter()
                                 .filter(|p| !(llgr_started && p.no_llgr))
                                 // the max-prefix drop itself announces prefixes (they may replace kept ones)
-                                .filter(|p| !post_f.iter().any(|q| q.pfx == p.pfx && (q.tag == p.tag || *how == DropHow::MaxPrefix)))
+                                .filter(|p| {
+                                    !post_f.iter().any(|q| {
+                                        q.pfx == p.pfx
+                                            && (q.tag == p.tag || *how == DropHow::MaxPrefix)
+                                    })
+                                })
                                 .count();
                             if lost > 0 {
                                 skip_i1 |= 1 << f;
@@ -537,7 +662,8 @@ impl Model {
                                     detail: format!("{} of {} path(s) of negotiated family {} are gone after a GR-eligible drop", lost, pre_f.len(), FNAME[f]),
                                 });
                             }
-                            let unmarked = post_f.iter().filter(|q| !(q.stale || q.llgr_stale)).count();
+                            let unmarked =
+                                post_f.iter().filter(|q| !(q.stale || q.llgr_stale)).count();
                             if unmarked > 0 {
                                 skip_i1 |= 1 << f;
                                 let llgr_only = !has(gr, f) && gr != 0;
@@ -578,7 +704,11 @@ impl Model {
                     }
                     if !post.paths.is_empty() {
                         skip_i1 = 0b11;
-                        let flagged = post.paths.iter().filter(|p| p.stale || p.llgr_stale).count();
+                        let flagged = post
+                            .paths
+                            .iter()
+                            .filter(|p| p.stale || p.llgr_stale)
+                            .count();
                         out.push(Finding {
                             clause: "I3",
                             event: label.clone(),
@@ -609,7 +739,11 @@ impl Model {
                 st.add("I4:restart-timer:judged");
                 self.judged_after_retention = true;
                 for f in 0..2 {
-                    let left = post.paths.iter().filter(|p| p.fam == f && self.stale_like(p)).count();
+                    let left = post
+                        .paths
+                        .iter()
+                        .filter(|p| p.fam == f && self.stale_like(p))
+                        .count();
                     if left > 0 && !has(post.llgr_timers, f) && self.live.is_none() {
                         skip_i1 |= 1 << f;
                         out.push(Finding {
@@ -625,14 +759,21 @@ impl Model {
                 label = "llgr-timer".into();
                 st.add("I4:llgr-timer:judged");
                 self.judged_after_retention = true;
-                let left = post.paths.iter().filter(|p| p.fam == *fam && self.stale_like(p)).count();
+                let left = post
+                    .paths
+                    .iter()
+                    .filter(|p| p.fam == *fam && self.stale_like(p))
+                    .count();
                 if left > 0 && self.live.is_none() {
                     skip_i1 |= 1 << fam;
                     out.push(Finding {
                         clause: "I4",
                         event: label.clone(),
                         fact: "stale-remains".into(),
-                        detail: format!("{} stale path(s) of {} remain after its LLGR timer expired", left, FNAME[*fam]),
+                        detail: format!(
+                            "{} stale path(s) of {} remain after its LLGR timer expired",
+                            left, FNAME[*fam]
+                        ),
                     });
                 }
             }
@@ -649,12 +790,19 @@ impl Model {
             if has(skip_i1, f) {
                 continue;
             }
-            let stale: Vec<&PathObs> = post.paths.iter().filter(|p| p.fam == f && self.stale_like(p)).collect();
+            let stale: Vec<&PathObs> = post
+                .paths
+                .iter()
+                .filter(|p| p.fam == f && self.stale_like(p))
+                .collect();
             if stale.is_empty() {
                 continue;
             }
             st.add("I1:judged");
-            let eor_awaited = self.live.as_ref().is_some_and(|l| has(l.gr, f) && !has(l.eor_seen, f));
+            let eor_awaited = self
+                .live
+                .as_ref()
+                .is_some_and(|l| has(l.gr, f) && !has(l.eor_seen, f));
             if post.gr_timer {
                 st.add("I1:by-restart-timer");
             } else if has(post.llgr_timers, f) {
@@ -683,12 +831,23 @@ impl Model {
         if check_i5 && let Some(l) = &self.live {
             for ((f, pfx), (tag, kind)) in &l.announced {
                 st.add("I5:judged");
-                if !post.paths.iter().any(|p| p.fam == *f && p.pfx == *pfx && p.tag == *tag) {
+                if !post
+                    .paths
+                    .iter()
+                    .any(|p| p.fam == *f && p.pfx == *pfx && p.tag == *tag)
+                {
                     out.push(Finding {
                         clause: "I5",
                         event: label.clone(),
-                        fact: if *kind == AttrKind::LlgrStaleComm { "reannounced-path-with-llgr-stale-community-lost".into() } else { "reannounced-path-lost".into() },
-                        detail: format!("path {}/{} tag {} announced on the live session is gone", FNAME[*f], pfx, tag),
+                        fact: if *kind == AttrKind::LlgrStaleComm {
+                            "reannounced-path-with-llgr-stale-community-lost".into()
+                        } else {
+                            "reannounced-path-lost".into()
+                        },
+                        detail: format!(
+                            "path {}/{} tag {} announced on the live session is gone",
+                            FNAME[*f], pfx, tag
+                        ),
                     });
                     break;
                 }
@@ -704,25 +863,38 @@ impl Model {
             let bad = post
                 .paths
                 .iter()
-                .filter(|p| p.fam == f && p.no_llgr && self.is_old(p) && (llgr_running || p.llgr_stale))
+                .filter(|p| {
+                    p.fam == f && p.no_llgr && self.is_old(p) && (llgr_running || p.llgr_stale)
+                })
                 .count();
             if bad > 0 {
                 out.push(Finding {
                     clause: "I7",
                     event: label.clone(),
                     fact: "no-llgr-route-kept".into(),
-                    detail: format!("{} path(s) of {} carrying NO_LLGR are kept in the LLGR period", bad, FNAME[f]),
+                    detail: format!(
+                        "{} path(s) of {} carrying NO_LLGR are kept in the LLGR period",
+                        bad, FNAME[f]
+                    ),
                 });
             }
         }
-        if pre.paths.iter().any(|p| p.no_llgr) && !post.paths.iter().any(|p| p.no_llgr) && post.llgr_timers != 0 && pre.llgr_timers == 0 {
+        if pre.paths.iter().any(|p| p.no_llgr)
+            && !post.paths.iter().any(|p| p.no_llgr)
+            && post.llgr_timers != 0
+            && pre.llgr_timers == 0
+        {
             st.add("I7:no-llgr-route-dropped-at-llgr-start");
         }
 
         if !post.restarting && self.live.is_none() && (post.gr_timer || post.llgr_timers != 0) {
             st.add("unjudged:timer-armed-but-not-restarting");
         }
-        if post.restarting && post.paths.iter().all(|p| !self.stale_like(p)) && !post.gr_timer && post.llgr_timers == 0 {
+        if post.restarting
+            && post.paths.iter().all(|p| !self.stale_like(p))
+            && !post.gr_timer
+            && post.llgr_timers == 0
+        {
             st.add("unjudged:restarting-with-nothing-pending");
         }
         if post.paths.iter().any(|p| p.stale) {
@@ -743,9 +915,15 @@ fn peer_v4() -> IpAddr {
 
 fn nlri(fam: usize, pfx: u8) -> packet::Nlri {
     if fam == 0 {
-        packet::Nlri::V4(bgp::Ipv4Net { addr: Ipv4Addr::new(10, pfx, 0, 0), mask: 16 })
+        packet::Nlri::V4(bgp::Ipv4Net {
+            addr: Ipv4Addr::new(10, pfx, 0, 0),
+            mask: 16,
+        })
     } else {
-        packet::Nlri::V6(bgp::Ipv6Net { addr: Ipv6Addr::new(0x2001, 0xdb8, pfx as u16, 0, 0, 0, 0, 0), mask: 48 })
+        packet::Nlri::V6(bgp::Ipv6Net {
+            addr: Ipv6Addr::new(0x2001, 0xdb8, pfx as u16, 0, 0, 0, 0, 0),
+            mask: 48,
+        })
     }
 }
 
@@ -790,20 +968,35 @@ fn spec_caps(spec: &CapSpec) -> Vec<packet::Capability> {
         v.push(packet::Capability::GracefulRestart {
             flags: if nbit { 0x4 } else { 0 },
             restart_time: RESTART_TIME,
-            families: (0..2).filter(|i| has(fams, *i)).map(|i| (FAMS[i], if has(fbits, i) { 0x80 } else { 0 })).collect(),
+            families: (0..2)
+                .filter(|i| has(fams, *i))
+                .map(|i| (FAMS[i], if has(fbits, i) { 0x80 } else { 0 }))
+                .collect(),
         });
     }
     if spec.llgr != 0 {
         v.push(packet::Capability::LongLivedGracefulRestart(
-            (0..2).filter(|i| has(spec.llgr, *i)).map(|i| (FAMS[i], 0x80u8, LLGR_TIME)).collect(),
+            (0..2)
+                .filter(|i| has(spec.llgr, *i))
+                .map(|i| (FAMS[i], 0x80u8, LLGR_TIME))
+                .collect(),
         ));
     }
     v
 }
 
 fn local_gr_cfg(cfg: &LocalCfg) -> (Option<GrPeerConfig>, Option<LlgrPeerConfig>) {
-    let gr = (cfg.gr != 0).then(|| GrPeerConfig { restart_time: RESTART_TIME, notification_enabled: cfg.nbit, families: fset_vec(cfg.gr) });
-    let llgr = (cfg.llgr != 0).then(|| LlgrPeerConfig { families: fset_vec(cfg.llgr).into_iter().map(|f| (f, LLGR_TIME)).collect() });
+    let gr = (cfg.gr != 0).then(|| GrPeerConfig {
+        restart_time: RESTART_TIME,
+        notification_enabled: cfg.nbit,
+        families: fset_vec(cfg.gr),
+    });
+    let llgr = (cfg.llgr != 0).then(|| LlgrPeerConfig {
+        families: fset_vec(cfg.llgr)
+            .into_iter()
+            .map(|f| (f, LLGR_TIME))
+            .collect(),
+    });
     (gr, llgr)
 }
 
@@ -827,9 +1020,15 @@ fn reason_of(how: DropHow) -> crate::fsm::SessionDownReason {
     use crate::fsm::SessionDownReason as R;
     match how {
         DropHow::TcpRst | DropHow::TcpFin => R::IoError,
-        DropHow::Notif(c, s) => R::RemoteNotification(bgp::Message::Notification(packet::Notification::from_notification(c, s, vec![]))),
-        DropHow::Garbage => R::LocalNotification(bgp::Message::Notification(packet::Notification::BadMessageType { data: vec![9] })),
-        DropHow::MaxPrefix => R::LocalNotification(bgp::Message::Notification(packet::Notification::CeaseMaxPrefixReached)),
+        DropHow::Notif(c, s) => R::RemoteNotification(bgp::Message::Notification(
+            packet::Notification::from_notification(c, s, vec![]),
+        )),
+        DropHow::Garbage => R::LocalNotification(bgp::Message::Notification(
+            packet::Notification::BadMessageType { data: vec![9] },
+        )),
+        DropHow::MaxPrefix => R::LocalNotification(bgp::Message::Notification(
+            packet::Notification::CeaseMaxPrefixReached,
+        )),
         DropHow::ApiShutdown | DropHow::ApiReset | DropHow::ApiSilent => R::AdminShutdown,
         DropHow::HoldTimer => R::HoldTimerExpired,
     }
@@ -857,7 +1056,11 @@ static REPLICA: std::sync::atomic::AtomicU8 = std::sync::atomic::AtomicU8::new(0
 
 fn replica() -> Replica {
     let v = REPLICA.load(std::sync::atomic::Ordering::Relaxed);
-    Replica { elig_first: v & 1 != 0, llgr_stale: v & 2 != 0, fail_noop: v & 4 != 0 }
+    Replica {
+        elig_first: v & 1 != 0,
+        llgr_stale: v & 2 != 0,
+        fail_noop: v & 4 != 0,
+    }
 }
 
 /// One step of a history as executed: None = the op was not applicable in the current state.
@@ -887,8 +1090,21 @@ impl L1World {
     fn new(cfg: &LocalCfg) -> L1World {
         let addr = IpAddr::V4(Ipv4Addr::new(192, 0, 2, 10));
         let (gr, llgr) = local_gr_cfg(cfg);
-        let local_cap = PeerParams::build_local_cap(addr, LOCAL_ASN, &local_families(), gr.as_ref(), llgr.as_ref());
-        let fsm = crate::fsm::PeerFsm::new(u32::from(Ipv4Addr::new(1, 0, 0, 1)), LOCAL_ASN, local_cap.clone(), 90, 0, FnvHashMap::default());
+        let local_cap = PeerParams::build_local_cap(
+            addr,
+            LOCAL_ASN,
+            &local_families(),
+            gr.as_ref(),
+            llgr.as_ref(),
+        );
+        let fsm = crate::fsm::PeerFsm::new(
+            u32::from(Ipv4Addr::new(1, 0, 0, 1)),
+            LOCAL_ASN,
+            local_cap.clone(),
+            90,
+            0,
+            FnvHashMap::default(),
+        );
         let ctx = Arc::new(std::sync::Mutex::new(PeerContext {
             conn_arbiter: Arc::new(std::sync::Mutex::new(ConnArbiter::new(fsm))),
             active_connect_cancel_tx: None,
@@ -941,7 +1157,8 @@ impl L1World {
                 if self.live.is_some() || spec.mp == 0 {
                     return Ok(None);
                 }
-                let mut sess = PeerSession::new_for_test(self.addr, self.ctx.clone(), self.tables.clone());
+                let mut sess =
+                    PeerSession::new_for_test(self.addr, self.ctx.clone(), self.tables.clone());
                 sess.local_cap = self.local_cap.clone();
                 if *outcome != ConnOutcome::Full {
                     // a session that never reached Established: no sources, nothing negotiated;
@@ -956,18 +1173,26 @@ impl L1World {
                     drop(sess);
                     if replica().fail_noop {
                         let c = self.ctx.lock().unwrap();
-                        let _ = c.conn_arbiter.lock().unwrap().process(info.role, crate::fsm::Input::Disconnected);
+                        let _ = c
+                            .conn_arbiter
+                            .lock()
+                            .unwrap()
+                            .process(info.role, crate::fsm::Input::Disconnected);
                     } else {
                         apply_disconnect(&self.ctx, self.addr, &self.tables, info).await;
                     }
-                    return Ok(Some(Ev::ReconnectFail { after_open: *outcome == ConnOutcome::DieAfterOpen }));
+                    return Ok(Some(Ev::ReconnectFail {
+                        after_open: *outcome == ConnOutcome::DieAfterOpen,
+                    }));
                 }
                 // what apply_outputs does for Output::SessionNegotiated / SessionEstablished
                 let remote_caps = spec_caps(spec);
                 sess.codec = bgp::PeerCodec::negotiate(&sess.local_cap, &remote_caps);
                 sess.negotiated_gr = sess.negotiate_gr(&remote_caps);
                 sess.negotiated_llgr = sess.negotiate_llgr(&remote_caps);
-                let effects = vec![GlobalEffect::GrSessionEstablished { negotiated_gr: sess.negotiated_gr.clone() }];
+                let effects = vec![GlobalEffect::GrSessionEstablished {
+                    negotiated_gr: sess.negotiated_gr.clone(),
+                }];
                 // on_established: one Source per session family, register_peer
                 let fams: Vec<Family> = sess.codec.families_iter().collect();
                 let mut fset = 0;
@@ -977,19 +1202,35 @@ impl L1World {
                     }
                     sess.source.insert(
                         *f,
-                        Arc::new(table::Source::new(self.addr, IpAddr::V4(Ipv4Addr::new(192, 0, 2, 1)), REMOTE_ASN, LOCAL_ASN, Ipv4Addr::new(10, 0, 0, 1), PeerRole::Ebgp)),
+                        Arc::new(table::Source::new(
+                            self.addr,
+                            IpAddr::V4(Ipv4Addr::new(192, 0, 2, 1)),
+                            REMOTE_ASN,
+                            LOCAL_ASN,
+                            Ipv4Addr::new(10, 0, 0, 1),
+                            PeerRole::Ebgp,
+                        )),
                     );
                 }
-                let rx = self.tables.register_peer(self.addr, FnvHashSet::default(), |_| {});
+                let rx = self
+                    .tables
+                    .register_peer(self.addr, FnvHashSet::default(), |_| {});
                 sess.peer_event_rx = Some(UnboundedReceiverStream::new(rx));
                 sess.process_effects(effects, &self.global).await;
                 self.epochs += 1;
-                self.live = Some(L1Live { sess, fams: fset, epoch: self.epochs, seq: 0 });
+                self.live = Some(L1Live {
+                    sess,
+                    fams: fset,
+                    epoch: self.epochs,
+                    seq: 0,
+                });
                 Ok(Some(Ev::Established { spec: *spec }))
             }
             Op::Announce { fam, pfx, kind } => {
                 let ts = self.ts;
-                let Some(l) = self.live.as_mut() else { return Ok(None) };
+                let Some(l) = self.live.as_mut() else {
+                    return Ok(None);
+                };
                 if !has(l.fams, *fam) {
                     return Ok(None);
                 }
@@ -997,21 +1238,47 @@ impl L1World {
                 let tag = l.epoch * 1000 + l.seq;
                 // rx_update
                 let source = l.sess.source[&FAMS[*fam]].clone();
-                self.tables.insert_route(source, FAMS[*fam], packet::PathNlri::new(nlri(*fam, *pfx)), Some(nexthop(*fam)), mk_attrs(tag, *kind), None, ts);
-                Ok(Some(Ev::Announced { fam: *fam, pfx: *pfx, tag, kind: *kind }))
+                self.tables.insert_route(
+                    source,
+                    FAMS[*fam],
+                    packet::PathNlri::new(nlri(*fam, *pfx)),
+                    Some(nexthop(*fam)),
+                    mk_attrs(tag, *kind),
+                    None,
+                    ts,
+                );
+                Ok(Some(Ev::Announced {
+                    fam: *fam,
+                    pfx: *pfx,
+                    tag,
+                    kind: *kind,
+                }))
             }
             Op::Withdraw { fam, pfx } => {
                 let ts = self.ts;
-                let Some(l) = self.live.as_mut() else { return Ok(None) };
+                let Some(l) = self.live.as_mut() else {
+                    return Ok(None);
+                };
                 if !has(l.fams, *fam) {
                     return Ok(None);
                 }
                 let source = l.sess.source[&FAMS[*fam]].clone();
-                self.tables.remove_route(source, FAMS[*fam], packet::PathNlri::new(nlri(*fam, *pfx)), None, ts);
-                Ok(Some(Ev::Withdrawn { fam: *fam, pfx: *pfx }))
+                self.tables.remove_route(
+                    source,
+                    FAMS[*fam],
+                    packet::PathNlri::new(nlri(*fam, *pfx)),
+                    None,
+                    ts,
+                );
+                Ok(Some(Ev::Withdrawn {
+                    fam: *fam,
+                    pfx: *pfx,
+                }))
             }
             Op::Eor { fam } => {
-                let Some(l) = self.live.as_mut() else { return Ok(None) };
+                let Some(l) = self.live.as_mut() else {
+                    return Ok(None);
+                };
                 if !has(l.fams, *fam) {
                     return Ok(None);
                 }
@@ -1021,7 +1288,9 @@ impl L1World {
                     self.tables.notify_eor(source.clone(), family);
                 }
                 if l.sess.negotiated_gr.is_some() {
-                    l.sess.process_effects(vec![GlobalEffect::GrEorReceived { family }], &self.global).await;
+                    l.sess
+                        .process_effects(vec![GlobalEffect::GrEorReceived { family }], &self.global)
+                        .await;
                 }
                 Ok(Some(Ev::Eor { fam: *fam }))
             }
@@ -1029,9 +1298,15 @@ impl L1World {
                 if self.live.is_none() || *how == DropHow::MaxPrefix {
                     return Ok(None);
                 }
-                if matches!(how, DropHow::ApiShutdown | DropHow::ApiReset | DropHow::ApiSilent) {
+                if matches!(
+                    how,
+                    DropHow::ApiShutdown | DropHow::ApiReset | DropHow::ApiSilent
+                ) {
                     // the API call: fires pending timers and signals the session task
-                    self.ctx.lock().unwrap().force_down(CloseReason::AdminShutdown, false);
+                    self.ctx
+                        .lock()
+                        .unwrap()
+                        .force_down(CloseReason::AdminShutdown, false);
                 }
                 let L1Live { mut sess, .. } = self.live.take().unwrap();
                 let shutdown_reason = Some(reason_of(*how));
@@ -1039,17 +1314,34 @@ impl L1World {
                 let mode = replica();
                 let raw_gr = sess.negotiated_gr.take();
                 let raw_llgr = sess.negotiated_llgr.take();
-                let elig_gr = raw_gr.clone().and_then(|gr| gr_on_disconnect(&shutdown_reason, gr));
-                let llgr_eligible = elig_gr.is_some() || matches!(shutdown_reason, None | Some(crate::fsm::SessionDownReason::IoError));
+                let elig_gr = raw_gr
+                    .clone()
+                    .and_then(|gr| gr_on_disconnect(&shutdown_reason, gr));
+                let llgr_eligible = elig_gr.is_some()
+                    || matches!(
+                        shutdown_reason,
+                        None | Some(crate::fsm::SessionDownReason::IoError)
+                    );
                 if !sess.source.is_empty() {
                     let (keep_gr, keep_llgr) = if mode.elig_first {
-                        (elig_gr.as_ref(), if llgr_eligible { raw_llgr.as_ref() } else { None })
+                        (
+                            elig_gr.as_ref(),
+                            if llgr_eligible {
+                                raw_llgr.as_ref()
+                            } else {
+                                None
+                            },
+                        )
                     } else {
                         (raw_gr.as_ref(), raw_llgr.as_ref())
                     };
-                    let drop_families = families_to_drop_on_disconnect(sess.source.keys(), keep_gr, keep_llgr);
-                    let mut stale_families: Vec<Family> = keep_gr.map(|g| g.families.clone()).unwrap_or_default();
-                    if mode.llgr_stale && let Some(l) = keep_llgr {
+                    let drop_families =
+                        families_to_drop_on_disconnect(sess.source.keys(), keep_gr, keep_llgr);
+                    let mut stale_families: Vec<Family> =
+                        keep_gr.map(|g| g.families.clone()).unwrap_or_default();
+                    if mode.llgr_stale
+                        && let Some(l) = keep_llgr
+                    {
                         for (f, _) in &l.families {
                             if !stale_families.contains(f) {
                                 stale_families.push(*f);
@@ -1059,7 +1351,8 @@ impl L1World {
                     let any_source = sess.source.values().next().unwrap().clone();
                     let bmp_reason = crate::bmp::session_down_to_bmp(shutdown_reason.clone());
                     sess.peer_event_rx = None;
-                    self.tables.unregister_peer(self.addr, &drop_families, &stale_families);
+                    self.tables
+                        .unregister_peer(self.addr, &drop_families, &stale_families);
                     self.tables.peer_down(PeerDownData {
                         peer_addr: any_source.remote_addr,
                         peer_asn: any_source.remote_asn,
@@ -1086,7 +1379,10 @@ impl L1World {
                 if self.live.is_some() {
                     return Ok(None);
                 }
-                self.ctx.lock().unwrap().force_down(CloseReason::AdminShutdown, false);
+                self.ctx
+                    .lock()
+                    .unwrap()
+                    .force_down(CloseReason::AdminShutdown, false);
                 Ok(Some(Ev::ForcedDownIdle))
             }
         }
@@ -1104,7 +1400,11 @@ fn fire_restart(ctx: &Arc<std::sync::Mutex<PeerContext>>) -> StepResult {
 
 fn fire_llgr(ctx: &Arc<std::sync::Mutex<PeerContext>>, fam: usize) -> StepResult {
     let mut c = ctx.lock().unwrap();
-    if !c.llgr_family_timers.get(&FAMS[fam]).is_some_and(|t| !t.is_closed()) {
+    if !c
+        .llgr_family_timers
+        .get(&FAMS[fam])
+        .is_some_and(|t| !t.is_closed())
+    {
         return Ok(None);
     }
     // fire exactly one family, the way fire_llgr_timers does for all of them
@@ -1148,8 +1448,13 @@ const IO_WAIT: std::time::Duration = std::time::Duration::from_secs(15);
 impl L2Live {
     async fn send(&mut self, msg: &bgp::Message) -> Result<(), HErr> {
         let mut b = BytesMut::with_capacity(4096);
-        self.codec.encode_to(msg, &mut b).map_err(|e| HErr::Harness(format!("encode: {:?}", e)))?;
-        self.client.write_all(&b).await.map_err(|e| HErr::Io(format!("write: {}", e)))
+        self.codec
+            .encode_to(msg, &mut b)
+            .map_err(|e| HErr::Harness(format!("encode: {:?}", e)))?;
+        self.client
+            .write_all(&b)
+            .await
+            .map_err(|e| HErr::Io(format!("write: {}", e)))
     }
 
     fn fold(&mut self, m: bgp::ParsedMessage) {
@@ -1166,14 +1471,23 @@ impl L2Live {
     }
 
     /// read from the socket until `done(self)`; EOF / reset is an error
-    async fn read_until<F: Fn(&L2Live) -> bool>(&mut self, done: F, what: &str) -> Result<(), HErr> {
+    async fn read_until<F: Fn(&L2Live) -> bool>(
+        &mut self,
+        done: F,
+        what: &str,
+    ) -> Result<(), HErr> {
         let deadline = std::time::Instant::now() + IO_WAIT;
         loop {
             loop {
                 match self.codec.try_parse(&mut self.rxbuf) {
                     Ok(Some(m)) => self.fold(m),
                     Ok(None) => break,
-                    Err(n) => return Err(HErr::Harness(format!("frame from the daemon rejected by the peer-side codec: {:?}", n))),
+                    Err(n) => {
+                        return Err(HErr::Harness(format!(
+                            "frame from the daemon rejected by the peer-side codec: {:?}",
+                            n
+                        )));
+                    }
                 }
             }
             if done(self) {
@@ -1214,7 +1528,11 @@ impl L2Live {
         });
         self.send(&reach).await?;
         poll_sentinel(tables, addr, fi, true).await?;
-        self.send(&bgp::Message::Update(bgp::Update::Unreach { family: FAMS[fi], entries })).await?;
+        self.send(&bgp::Message::Update(bgp::Update::Unreach {
+            family: FAMS[fi],
+            entries,
+        }))
+        .await?;
         poll_sentinel(tables, addr, fi, false).await?;
         // keep the receive side drained
         loop {
@@ -1238,12 +1556,25 @@ const SENTINEL: u8 = 200;
 
 fn sentinel_present(tables: &TableHandle, addr: IpAddr, fi: usize) -> bool {
     tables
-        .collect_paths(table::TableQuery::AdjIn(addr), FAMS[fi], vec![table::PrefixFilter { prefix: nlri(fi, SENTINEL), lookup_type: table::LookupType::Exact }], true)
+        .collect_paths(
+            table::TableQuery::AdjIn(addr),
+            FAMS[fi],
+            vec![table::PrefixFilter {
+                prefix: nlri(fi, SENTINEL),
+                lookup_type: table::LookupType::Exact,
+            }],
+            true,
+        )
         .iter()
         .any(|d| !d.paths.is_empty())
 }
 
-async fn poll_sentinel(tables: &TableHandle, addr: IpAddr, fi: usize, want: bool) -> Result<(), HErr> {
+async fn poll_sentinel(
+    tables: &TableHandle,
+    addr: IpAddr,
+    fi: usize,
+    want: bool,
+) -> Result<(), HErr> {
     let deadline = std::time::Instant::now() + IO_WAIT;
     let mut i = 0u32;
     loop {
@@ -1251,7 +1582,10 @@ async fn poll_sentinel(tables: &TableHandle, addr: IpAddr, fi: usize, want: bool
             return Ok(());
         }
         if std::time::Instant::now() > deadline {
-            return Err(HErr::Watchdog(format!("barrier: sentinel prefix did not become {}", if want { "present" } else { "absent" })));
+            return Err(HErr::Watchdog(format!(
+                "barrier: sentinel prefix did not become {}",
+                if want { "present" } else { "absent" }
+            )));
         }
         if i < 200 {
             tokio::task::yield_now().await;
@@ -1271,12 +1605,18 @@ async fn join_session(join: tokio::task::JoinHandle<()>) -> Result<(), HErr> {
             }
             Err(HErr::Harness(format!("session task: {}", e)))
         }
-        Err(_) => Err(HErr::Watchdog("session task did not finish after the disconnect".into())),
+        Err(_) => Err(HErr::Watchdog(
+            "session task did not finish after the disconnect".into(),
+        )),
     }
 }
 
 impl<'a> L2World<'a> {
-    async fn new(cfg: &LocalCfg, listener: &'a TcpListener, seed: u64) -> Result<L2World<'a>, HErr> {
+    async fn new(
+        cfg: &LocalCfg,
+        listener: &'a TcpListener,
+        seed: u64,
+    ) -> Result<L2World<'a>, HErr> {
         let global = make_global();
         let tables: TableHandle = Arc::new(TableManager::new(cfg.shards));
         let addr = peer_v4();
@@ -1313,7 +1653,8 @@ impl<'a> L2World<'a> {
         };
         let ctx = {
             let mut g = global.write().await;
-            g.add_peer(params, None).map_err(|_| HErr::Harness("add_peer failed".into()))?;
+            g.add_peer(params, None)
+                .map_err(|_| HErr::Harness("add_peer failed".into()))?;
             g.peers.get(&addr).unwrap().context.clone()
         };
         let (active_tx, active_rx) = mpsc::unbounded_channel();
@@ -1360,18 +1701,32 @@ impl<'a> L2World<'a> {
     }
 
     async fn connect(&mut self, spec: &CapSpec) -> Result<L2Live, HErr> {
-        let la = self.listener.local_addr().map_err(|e| HErr::Io(e.to_string()))?;
-        let client = crate::verif_hooks::connect_retry(la).await.map_err(|e| HErr::Io(format!("connect: {}", e)))?;
-        let (server, _) = self.listener.accept().await.map_err(|e| HErr::Io(format!("accept: {}", e)))?;
+        let la = self
+            .listener
+            .local_addr()
+            .map_err(|e| HErr::Io(e.to_string()))?;
+        let client = crate::verif_hooks::connect_retry(la)
+            .await
+            .map_err(|e| HErr::Io(format!("connect: {}", e)))?;
+        let (server, _) = self
+            .listener
+            .accept()
+            .await
+            .map_err(|e| HErr::Io(format!("accept: {}", e)))?;
         // close with RST: no TIME_WAIT sockets pile up over thousands of sessions
         #[allow(deprecated)]
         let _ = client.set_linger(Some(std::time::Duration::ZERO));
         #[allow(deprecated)]
         let _ = server.set_linger(Some(std::time::Duration::ZERO));
         let _ = client.set_nodelay(true);
-        let sess = accept_connection(&self.global, &self.tables, server, crate::fsm::Role::Passive)
-            .await
-            .ok_or_else(|| HErr::Harness("accept_connection refused the connection".into()))?;
+        let sess = accept_connection(
+            &self.global,
+            &self.tables,
+            server,
+            crate::fsm::Role::Passive,
+        )
+        .await
+        .ok_or_else(|| HErr::Harness("accept_connection refused the connection".into()))?;
         let local_cap = sess.local_cap.clone();
         // Global::serve: tokio::spawn(h.run(global.clone(), active_tx.clone()))
         let join = tokio::spawn(sess.run(self.global.clone(), self.active_tx.clone()));
@@ -1422,7 +1777,11 @@ impl<'a> L2World<'a> {
                     ConnOutcome::DieAfterOpen => {
                         l.send(&Self::open_msg(spec)).await?;
                         // the daemon answers our OPEN with KEEPALIVE: it is in OpenConfirm now
-                        l.read_until(|l| l.opens > 0 && l.keepalives > 0, "OPEN + KEEPALIVE from the daemon").await?;
+                        l.read_until(
+                            |l| l.opens > 0 && l.keepalives > 0,
+                            "OPEN + KEEPALIVE from the daemon",
+                        )
+                        .await?;
                         if self.rng.bool() {
                             let _ = l.client.shutdown().await;
                         }
@@ -1437,7 +1796,11 @@ impl<'a> L2World<'a> {
                         // initial End-of-RIB per session family, then a barrier so that
                         // process_effects(GrSessionEstablished) has run as well
                         let fams = l.fams;
-                        l.read_until(move |l| (0..2).all(|i| !has(fams, i) || l.eors[i] > 0), "initial End-of-RIB markers").await?;
+                        l.read_until(
+                            move |l| (0..2).all(|i| !has(fams, i) || l.eors[i] > 0),
+                            "initial End-of-RIB markers",
+                        )
+                        .await?;
                         l.barrier(&self.tables, self.addr).await?;
                         self.epochs += 1;
                         l.epoch = self.epochs;
@@ -1447,7 +1810,9 @@ impl<'a> L2World<'a> {
                 }
             }
             Op::Announce { fam, pfx, kind } => {
-                let Some(l) = self.live.as_mut() else { return Ok(None) };
+                let Some(l) = self.live.as_mut() else {
+                    return Ok(None);
+                };
                 if !has(l.fams, *fam) {
                     return Ok(None);
                 }
@@ -1461,20 +1826,35 @@ impl<'a> L2World<'a> {
                 });
                 l.send(&msg).await?;
                 l.barrier(&self.tables, self.addr).await?;
-                Ok(Some(Ev::Announced { fam: *fam, pfx: *pfx, tag, kind: *kind }))
+                Ok(Some(Ev::Announced {
+                    fam: *fam,
+                    pfx: *pfx,
+                    tag,
+                    kind: *kind,
+                }))
             }
             Op::Withdraw { fam, pfx } => {
-                let Some(l) = self.live.as_mut() else { return Ok(None) };
+                let Some(l) = self.live.as_mut() else {
+                    return Ok(None);
+                };
                 if !has(l.fams, *fam) {
                     return Ok(None);
                 }
-                let msg = bgp::Message::Update(bgp::Update::Unreach { family: FAMS[*fam], entries: vec![packet::PathNlri::new(nlri(*fam, *pfx))] });
+                let msg = bgp::Message::Update(bgp::Update::Unreach {
+                    family: FAMS[*fam],
+                    entries: vec![packet::PathNlri::new(nlri(*fam, *pfx))],
+                });
                 l.send(&msg).await?;
                 l.barrier(&self.tables, self.addr).await?;
-                Ok(Some(Ev::Withdrawn { fam: *fam, pfx: *pfx }))
+                Ok(Some(Ev::Withdrawn {
+                    fam: *fam,
+                    pfx: *pfx,
+                }))
             }
             Op::Eor { fam } => {
-                let Some(l) = self.live.as_mut() else { return Ok(None) };
+                let Some(l) = self.live.as_mut() else {
+                    return Ok(None);
+                };
                 if !has(l.fams, *fam) {
                     return Ok(None);
                 }
@@ -1489,7 +1869,9 @@ impl<'a> L2World<'a> {
                 if *how == DropHow::HoldTimer {
                     return Ok(None);
                 }
-                if *how == DropHow::MaxPrefix && !(self.cfg.prefix_limit && has(self.live.as_ref().unwrap().fams, 0)) {
+                if *how == DropHow::MaxPrefix
+                    && !(self.cfg.prefix_limit && has(self.live.as_ref().unwrap().fams, 0))
+                {
                     return Ok(None);
                 }
                 let mut l = self.live.take().unwrap();
@@ -1512,7 +1894,10 @@ impl<'a> L2World<'a> {
                         // well-formed header, unknown message type 9
                         let mut b = vec![0xffu8; 16];
                         b.extend_from_slice(&[0, 19, 9]);
-                        l.client.write_all(&b).await.map_err(|e| HErr::Io(e.to_string()))?;
+                        l.client
+                            .write_all(&b)
+                            .await
+                            .map_err(|e| HErr::Io(e.to_string()))?;
                         let _ = l.read_until(|_| false, "close").await;
                     }
                     DropHow::MaxPrefix => {
@@ -1534,12 +1919,19 @@ impl<'a> L2World<'a> {
                     DropHow::ApiShutdown | DropHow::ApiReset | DropHow::ApiSilent => {
                         let reason = match how {
                             DropHow::ApiShutdown => CloseReason::AdminShutdown,
-                            DropHow::ApiReset => CloseReason::SendMessage(bgp::Message::Notification(packet::Notification::CeasePeerDeconfigured)),
+                            DropHow::ApiReset => {
+                                CloseReason::SendMessage(bgp::Message::Notification(
+                                    packet::Notification::CeasePeerDeconfigured,
+                                ))
+                            }
                             _ => CloseReason::Silent,
                         };
                         // what GrpcService::shutdown_peer / reset_peer and the BFD arm of Global::serve do
                         let g = self.global.read().await;
-                        let peer = g.peers.get(&self.addr).ok_or_else(|| HErr::Harness("peer vanished".into()))?;
+                        let peer = g
+                            .peers
+                            .get(&self.addr)
+                            .ok_or_else(|| HErr::Harness("peer vanished".into()))?;
                         peer.context.lock().unwrap().force_down(reason, false);
                     }
                     DropHow::HoldTimer => unreachable!(),
@@ -1563,8 +1955,14 @@ impl<'a> L2World<'a> {
                     return Ok(None);
                 }
                 let g = self.global.read().await;
-                let peer = g.peers.get(&self.addr).ok_or_else(|| HErr::Harness("peer vanished".into()))?;
-                peer.context.lock().unwrap().force_down(CloseReason::AdminShutdown, false);
+                let peer = g
+                    .peers
+                    .get(&self.addr)
+                    .ok_or_else(|| HErr::Harness("peer vanished".into()))?;
+                peer.context
+                    .lock()
+                    .unwrap()
+                    .force_down(CloseReason::AdminShutdown, false);
                 Ok(Some(Ev::ForcedDownIdle))
             }
         }
@@ -1616,7 +2014,14 @@ struct HistOut {
     nontrivial: bool,
 }
 
-async fn run_history(layer: u8, cfg: &LocalCfg, ops: &[Op], listener: Option<&TcpListener>, seed: u64, want_trace: bool) -> HistOut {
+async fn run_history(
+    layer: u8,
+    cfg: &LocalCfg,
+    ops: &[Op],
+    listener: Option<&TcpListener>,
+    seed: u64,
+    want_trace: bool,
+) -> HistOut {
     let mut out = HistOut {
         findings: vec![],
         fail_step: None,
@@ -1656,16 +2061,23 @@ async fn run_history(layer: u8, cfg: &LocalCfg, ops: &[Op], listener: Option<&Tc
         }
         let post = world.observe();
         if let Ev::Announced { fam, pfx, tag, .. } = &ev
-            && !post.paths.iter().any(|p| p.fam == *fam && p.pfx == *pfx && p.tag == *tag)
+            && !post
+                .paths
+                .iter()
+                .any(|p| p.fam == *fam && p.pfx == *pfx && p.tag == *tag)
         {
-            out.herr = Some(HErr::Harness(format!("announced path {}/{} tag {} is not in the Adj-RIB-In", FNAME[*fam], pfx, tag)));
+            out.herr = Some(HErr::Harness(format!(
+                "announced path {}/{} tag {} is not in the Adj-RIB-In",
+                FNAME[*fam], pfx, tag
+            )));
             break;
         }
         out.stats.add(&format!("op:{}", op.kind()));
         let f = model.step(&ev, &pre, &post, &mut out.stats);
         out.judged += 1;
         if want_trace {
-            out.trace.push(format!("#{} {:?} => {}", i, op, post.render()));
+            out.trace
+                .push(format!("#{} {:?} => {}", i, op, post.render()));
         }
         if !f.is_empty() {
             out.findings = f;
@@ -1692,7 +2104,11 @@ fn gen_cfg(rng: &mut Rng, layer: u8) -> LocalCfg {
 }
 
 fn subset_nonempty(rng: &mut Rng, of: FSet) -> FSet {
-    let c: Vec<FSet> = [0b01u8, 0b10, 0b11].iter().copied().filter(|s| s & of == *s).collect();
+    let c: Vec<FSet> = [0b01u8, 0b10, 0b11]
+        .iter()
+        .copied()
+        .filter(|s| s & of == *s)
+        .collect();
     if c.is_empty() { 0 } else { *rng.pick(&c) }
 }
 
@@ -1704,12 +2120,24 @@ fn gen_spec(rng: &mut Rng, prev: Option<&CapSpec>) -> CapSpec {
     }
     let mp = *rng.pick(&[0b11u8, 0b11, 0b11, 0b01, 0b10]);
     let gr = if rng.chance(5, 6) {
-        let f = if rng.chance(2, 3) { mp } else { subset_nonempty(rng, mp) };
+        let f = if rng.chance(2, 3) {
+            mp
+        } else {
+            subset_nonempty(rng, mp)
+        };
         Some((f, rng.bool(), rng.below(4) as u8 & f))
     } else {
         None
     };
-    let llgr = if rng.chance(1, 2) { if rng.chance(1, 2) { mp } else { subset_nonempty(rng, mp) } } else { 0 };
+    let llgr = if rng.chance(1, 2) {
+        if rng.chance(1, 2) {
+            mp
+        } else {
+            subset_nonempty(rng, mp)
+        }
+    } else {
+        0
+    };
     CapSpec { mp, gr, llgr }
 }
 
@@ -1727,11 +2155,23 @@ fn gen_drop(rng: &mut Rng, layer: u8) -> DropHow {
         62..=63 => DropHow::Notif(1, 2),
         64..=67 => DropHow::Notif(4, 0),
         68..=74 => DropHow::Garbage,
-        75..=79 => if layer == 2 { DropHow::MaxPrefix } else { DropHow::HoldTimer },
+        75..=79 => {
+            if layer == 2 {
+                DropHow::MaxPrefix
+            } else {
+                DropHow::HoldTimer
+            }
+        }
         80..=86 => DropHow::ApiShutdown,
         87..=92 => DropHow::ApiReset,
         93..=96 => DropHow::ApiSilent,
-        _ => if layer == 1 { DropHow::HoldTimer } else { DropHow::TcpRst },
+        _ => {
+            if layer == 1 {
+                DropHow::HoldTimer
+            } else {
+                DropHow::TcpRst
+            }
+        }
     }
 }
 
@@ -1746,18 +2186,48 @@ fn gen_kind(rng: &mut Rng) -> AttrKind {
 /// Directed skeleton: a full GR -> LLGR -> reconnect -> End-of-RIB cycle with
 /// re-announcements (some carrying LLGR_STALE / NO_LLGR), random extras in between.
 fn gen_llgr_cycle(rng: &mut Rng, layer: u8) -> (LocalCfg, Vec<Op>) {
-    let cfg = LocalCfg { gr: 0b11, nbit: rng.bool(), llgr: *rng.pick(&[0b11u8, 0b11, 0b10, 0b01]), shards: *rng.pick(&[1usize, 2, 4]), prefix_limit: false };
-    let spec = CapSpec { mp: 0b11, gr: Some((0b11, rng.bool(), 0b11)), llgr: *rng.pick(&[0b11u8, 0b11, 0b10, 0b01]) };
-    let mut ops = vec![Op::Connect { spec, outcome: ConnOutcome::Full }];
+    let cfg = LocalCfg {
+        gr: 0b11,
+        nbit: rng.bool(),
+        llgr: *rng.pick(&[0b11u8, 0b11, 0b10, 0b01]),
+        shards: *rng.pick(&[1usize, 2, 4]),
+        prefix_limit: false,
+    };
+    let spec = CapSpec {
+        mp: 0b11,
+        gr: Some((0b11, rng.bool(), 0b11)),
+        llgr: *rng.pick(&[0b11u8, 0b11, 0b10, 0b01]),
+    };
+    let mut ops = vec![Op::Connect {
+        spec,
+        outcome: ConnOutcome::Full,
+    }];
     for f in 0..2 {
         for p in 0..2u8 {
-            ops.push(Op::Announce { fam: f, pfx: p, kind: gen_kind(rng) });
+            ops.push(Op::Announce {
+                fam: f,
+                pfx: p,
+                kind: gen_kind(rng),
+            });
         }
         ops.push(Op::Eor { fam: f });
     }
-    ops.push(Op::Drop { how: if rng.chance(3, 4) { DropHow::TcpRst } else { DropHow::TcpFin } });
+    ops.push(Op::Drop {
+        how: if rng.chance(3, 4) {
+            DropHow::TcpRst
+        } else {
+            DropHow::TcpFin
+        },
+    });
     if rng.chance(1, 4) {
-        ops.push(Op::Connect { spec, outcome: if rng.bool() { ConnOutcome::DieBeforeOpen } else { ConnOutcome::DieAfterOpen } });
+        ops.push(Op::Connect {
+            spec,
+            outcome: if rng.bool() {
+                ConnOutcome::DieBeforeOpen
+            } else {
+                ConnOutcome::DieAfterOpen
+            },
+        });
     }
     if rng.chance(4, 5) {
         ops.push(Op::FireRestart);
@@ -1766,12 +2236,26 @@ fn gen_llgr_cycle(rng: &mut Rng, layer: u8) -> (LocalCfg, Vec<Op>) {
         ops.push(Op::FireLlgr { fam: rng.usize(2) });
     }
     if rng.chance(1, 5) {
-        ops.push(Op::Connect { spec, outcome: ConnOutcome::DieAfterOpen });
+        ops.push(Op::Connect {
+            spec,
+            outcome: ConnOutcome::DieAfterOpen,
+        });
     }
-    let spec2 = if rng.chance(2, 3) { spec } else { gen_spec(rng, None) };
-    ops.push(Op::Connect { spec: spec2, outcome: ConnOutcome::Full });
+    let spec2 = if rng.chance(2, 3) {
+        spec
+    } else {
+        gen_spec(rng, None)
+    };
+    ops.push(Op::Connect {
+        spec: spec2,
+        outcome: ConnOutcome::Full,
+    });
     for _ in 0..rng.range(1, 4) {
-        ops.push(Op::Announce { fam: rng.usize(2), pfx: rng.below(3) as u8, kind: gen_kind(rng) });
+        ops.push(Op::Announce {
+            fam: rng.usize(2),
+            pfx: rng.below(3) as u8,
+            kind: gen_kind(rng),
+        });
     }
     let mut fams = [0usize, 1];
     rng.shuffle(&mut fams);
@@ -1781,7 +2265,9 @@ fn gen_llgr_cycle(rng: &mut Rng, layer: u8) -> (LocalCfg, Vec<Op>) {
         }
     }
     if rng.chance(1, 2) {
-        ops.push(Op::Drop { how: gen_drop(rng, layer) });
+        ops.push(Op::Drop {
+            how: gen_drop(rng, layer),
+        });
         ops.push(Op::FireRestart);
     }
     (cfg, ops)
@@ -1791,10 +2277,17 @@ fn gen_ops(rng: &mut Rng, layer: u8, len: usize) -> Vec<Op> {
     let mut ops = Vec::new();
     let first = gen_spec(rng, None);
     let mut last_spec = first;
-    ops.push(Op::Connect { spec: first, outcome: ConnOutcome::Full });
+    ops.push(Op::Connect {
+        spec: first,
+        outcome: ConnOutcome::Full,
+    });
     for f in 0..2 {
         for p in 0..rng.range(1, 3) as u8 {
-            ops.push(Op::Announce { fam: f, pfx: p, kind: gen_kind(rng) });
+            ops.push(Op::Announce {
+                fam: f,
+                pfx: p,
+                kind: gen_kind(rng),
+            });
         }
     }
     for f in 0..2 {
@@ -1807,12 +2300,21 @@ fn gen_ops(rng: &mut Rng, layer: u8, len: usize) -> Vec<Op> {
         let k = rng.below(100);
         let op = if live {
             match k {
-                0..=29 => Op::Announce { fam: rng.usize(2), pfx: rng.below(3) as u8, kind: gen_kind(rng) },
-                30..=34 => Op::Withdraw { fam: rng.usize(2), pfx: rng.below(3) as u8 },
+                0..=29 => Op::Announce {
+                    fam: rng.usize(2),
+                    pfx: rng.below(3) as u8,
+                    kind: gen_kind(rng),
+                },
+                30..=34 => Op::Withdraw {
+                    fam: rng.usize(2),
+                    pfx: rng.below(3) as u8,
+                },
                 35..=59 => Op::Eor { fam: rng.usize(2) },
                 60..=94 => {
                     live = false;
-                    Op::Drop { how: gen_drop(rng, layer) }
+                    Op::Drop {
+                        how: gen_drop(rng, layer),
+                    }
                 }
                 95..=97 => Op::FireRestart,
                 _ => Op::FireLlgr { fam: rng.usize(2) },
@@ -1823,10 +2325,19 @@ fn gen_ops(rng: &mut Rng, layer: u8, len: usize) -> Vec<Op> {
                     live = true;
                     let s = gen_spec(rng, Some(&last_spec));
                     last_spec = s;
-                    Op::Connect { spec: s, outcome: ConnOutcome::Full }
+                    Op::Connect {
+                        spec: s,
+                        outcome: ConnOutcome::Full,
+                    }
                 }
-                40..=51 => Op::Connect { spec: gen_spec(rng, Some(&last_spec)), outcome: ConnOutcome::DieBeforeOpen },
-                52..=63 => Op::Connect { spec: gen_spec(rng, Some(&last_spec)), outcome: ConnOutcome::DieAfterOpen },
+                40..=51 => Op::Connect {
+                    spec: gen_spec(rng, Some(&last_spec)),
+                    outcome: ConnOutcome::DieBeforeOpen,
+                },
+                52..=63 => Op::Connect {
+                    spec: gen_spec(rng, Some(&last_spec)),
+                    outcome: ConnOutcome::DieAfterOpen,
+                },
                 64..=78 => Op::FireRestart,
                 79..=93 => Op::FireLlgr { fam: rng.usize(2) },
                 _ => Op::ForceDownIdle,
@@ -1840,24 +2351,97 @@ fn gen_ops(rng: &mut Rng, layer: u8, len: usize) -> Vec<Op> {
 // ---- exhaustive L1 enumeration
 
 fn exh_configs() -> Vec<(&'static str, LocalCfg, CapSpec)> {
-    let c = |gr, nbit, llgr| LocalCfg { gr, nbit, llgr, shards: 2, prefix_limit: false };
+    let c = |gr, nbit, llgr| LocalCfg {
+        gr,
+        nbit,
+        llgr,
+        shards: 2,
+        prefix_limit: false,
+    };
     vec![
-        ("gr-all", c(0b11, false, 0), CapSpec { mp: 0b11, gr: Some((0b11, false, 0)), llgr: 0 }),
-        ("gr-all+llgr-all+nbit", c(0b11, true, 0b11), CapSpec { mp: 0b11, gr: Some((0b11, true, 0b11)), llgr: 0b11 }),
-        ("gr-v4+llgr-all+nbit", c(0b01, true, 0b11), CapSpec { mp: 0b11, gr: Some((0b01, true, 0)), llgr: 0b11 }),
-        ("gr-all+llgr-v6", c(0b11, false, 0b11), CapSpec { mp: 0b11, gr: Some((0b11, false, 0)), llgr: 0b10 }),
-        ("llgr-only-v4", c(0, false, 0b01), CapSpec { mp: 0b11, gr: None, llgr: 0b01 }),
-        ("gr-v4", c(0b01, false, 0), CapSpec { mp: 0b11, gr: Some((0b01, false, 0)), llgr: 0 }),
+        (
+            "gr-all",
+            c(0b11, false, 0),
+            CapSpec {
+                mp: 0b11,
+                gr: Some((0b11, false, 0)),
+                llgr: 0,
+            },
+        ),
+        (
+            "gr-all+llgr-all+nbit",
+            c(0b11, true, 0b11),
+            CapSpec {
+                mp: 0b11,
+                gr: Some((0b11, true, 0b11)),
+                llgr: 0b11,
+            },
+        ),
+        (
+            "gr-v4+llgr-all+nbit",
+            c(0b01, true, 0b11),
+            CapSpec {
+                mp: 0b11,
+                gr: Some((0b01, true, 0)),
+                llgr: 0b11,
+            },
+        ),
+        (
+            "gr-all+llgr-v6",
+            c(0b11, false, 0b11),
+            CapSpec {
+                mp: 0b11,
+                gr: Some((0b11, false, 0)),
+                llgr: 0b10,
+            },
+        ),
+        (
+            "llgr-only-v4",
+            c(0, false, 0b01),
+            CapSpec {
+                mp: 0b11,
+                gr: None,
+                llgr: 0b01,
+            },
+        ),
+        (
+            "gr-v4",
+            c(0b01, false, 0),
+            CapSpec {
+                mp: 0b11,
+                gr: Some((0b01, false, 0)),
+                llgr: 0,
+            },
+        ),
     ]
 }
 
 fn exh_prelude(spec: &CapSpec) -> Vec<Op> {
     vec![
-        Op::Connect { spec: *spec, outcome: ConnOutcome::Full },
-        Op::Announce { fam: 0, pfx: 0, kind: AttrKind::Plain },
-        Op::Announce { fam: 0, pfx: 1, kind: AttrKind::NoLlgr },
-        Op::Announce { fam: 1, pfx: 0, kind: AttrKind::Plain },
-        Op::Announce { fam: 1, pfx: 1, kind: AttrKind::LlgrStaleComm },
+        Op::Connect {
+            spec: *spec,
+            outcome: ConnOutcome::Full,
+        },
+        Op::Announce {
+            fam: 0,
+            pfx: 0,
+            kind: AttrKind::Plain,
+        },
+        Op::Announce {
+            fam: 0,
+            pfx: 1,
+            kind: AttrKind::NoLlgr,
+        },
+        Op::Announce {
+            fam: 1,
+            pfx: 0,
+            kind: AttrKind::Plain,
+        },
+        Op::Announce {
+            fam: 1,
+            pfx: 1,
+            kind: AttrKind::LlgrStaleComm,
+        },
         Op::Eor { fam: 0 },
         Op::Eor { fam: 1 },
     ]
@@ -1866,21 +2450,90 @@ fn exh_prelude(spec: &CapSpec) -> Vec<Op> {
 fn exh_alphabet(spec: &CapSpec) -> Vec<(&'static str, Vec<Op>)> {
     let nbit = spec.gr.is_some_and(|g| g.1);
     vec![
-        ("D-tcp", vec![Op::Drop { how: DropHow::TcpRst }]),
-        ("D-hard-reset", vec![Op::Drop { how: DropHow::Notif(6, 9) }]),
-        ("D-cease", vec![Op::Drop { how: DropHow::Notif(6, 4) }]),
-        ("D-update-error", vec![Op::Drop { how: DropHow::Notif(3, 1) }]),
-        ("D-admin", vec![Op::Drop { how: DropHow::ApiShutdown }]),
-        ("R-fail", vec![Op::Connect { spec: *spec, outcome: ConnOutcome::DieAfterOpen }]),
-        ("R-same", vec![Op::Connect { spec: *spec, outcome: ConnOutcome::Full }]),
-        ("R-gr-v4-only", vec![Op::Connect { spec: CapSpec { mp: 0b11, gr: Some((0b01, nbit, 0)), llgr: 0 }, outcome: ConnOutcome::Full }]),
-        ("R-no-gr", vec![Op::Connect { spec: CapSpec { mp: 0b11, gr: None, llgr: 0 }, outcome: ConnOutcome::Full }]),
+        (
+            "D-tcp",
+            vec![Op::Drop {
+                how: DropHow::TcpRst,
+            }],
+        ),
+        (
+            "D-hard-reset",
+            vec![Op::Drop {
+                how: DropHow::Notif(6, 9),
+            }],
+        ),
+        (
+            "D-cease",
+            vec![Op::Drop {
+                how: DropHow::Notif(6, 4),
+            }],
+        ),
+        (
+            "D-update-error",
+            vec![Op::Drop {
+                how: DropHow::Notif(3, 1),
+            }],
+        ),
+        (
+            "D-admin",
+            vec![Op::Drop {
+                how: DropHow::ApiShutdown,
+            }],
+        ),
+        (
+            "R-fail",
+            vec![Op::Connect {
+                spec: *spec,
+                outcome: ConnOutcome::DieAfterOpen,
+            }],
+        ),
+        (
+            "R-same",
+            vec![Op::Connect {
+                spec: *spec,
+                outcome: ConnOutcome::Full,
+            }],
+        ),
+        (
+            "R-gr-v4-only",
+            vec![Op::Connect {
+                spec: CapSpec {
+                    mp: 0b11,
+                    gr: Some((0b01, nbit, 0)),
+                    llgr: 0,
+                },
+                outcome: ConnOutcome::Full,
+            }],
+        ),
+        (
+            "R-no-gr",
+            vec![Op::Connect {
+                spec: CapSpec {
+                    mp: 0b11,
+                    gr: None,
+                    llgr: 0,
+                },
+                outcome: ConnOutcome::Full,
+            }],
+        ),
         (
             "A",
             vec![
-                Op::Announce { fam: 0, pfx: 0, kind: AttrKind::Plain },
-                Op::Announce { fam: 1, pfx: 0, kind: AttrKind::LlgrStaleComm },
-                Op::Announce { fam: 0, pfx: 2, kind: AttrKind::Plain },
+                Op::Announce {
+                    fam: 0,
+                    pfx: 0,
+                    kind: AttrKind::Plain,
+                },
+                Op::Announce {
+                    fam: 1,
+                    pfx: 0,
+                    kind: AttrKind::LlgrStaleComm,
+                },
+                Op::Announce {
+                    fam: 0,
+                    pfx: 2,
+                    kind: AttrKind::Plain,
+                },
             ],
         ),
         ("E-v4", vec![Op::Eor { fam: 0 }]),
@@ -1900,8 +2553,18 @@ struct Ctl<'a> {
     params: &'a Params,
 }
 
-fn exec(ctl: &Ctl, layer: u8, cfg: &LocalCfg, ops: &[Op], seed: u64, trace: bool) -> Result<HistOut, PanicInfo> {
-    guard(|| ctl.rt.block_on(run_history(layer, cfg, ops, ctl.listener, seed, trace)))
+fn exec(
+    ctl: &Ctl,
+    layer: u8,
+    cfg: &LocalCfg,
+    ops: &[Op],
+    seed: u64,
+    trace: bool,
+) -> Result<HistOut, PanicInfo> {
+    guard(|| {
+        ctl.rt
+            .block_on(run_history(layer, cfg, ops, ctl.listener, seed, trace))
+    })
 }
 
 fn ops_json(ops: &[Op]) -> Json {
@@ -1910,7 +2573,16 @@ fn ops_json(ops: &[Op]) -> Json {
 
 /// Evaluate one history, fold what was observed into the report, shrink + report findings.
 /// Returns (any op of `tail` applied, violated).
-fn evaluate(ctl: &Ctl, rep: &mut Report, layer: u8, cfg: &LocalCfg, ops: &[Op], seed: u64, origin: &str, tail_from: usize) -> (bool, bool) {
+fn evaluate(
+    ctl: &Ctl,
+    rep: &mut Report,
+    layer: u8,
+    cfg: &LocalCfg,
+    ops: &[Op],
+    seed: u64,
+    origin: &str,
+    tail_from: usize,
+) -> (bool, bool) {
     let lname = if layer == 1 { "l1" } else { "l2" };
     let out = match exec(ctl, layer, cfg, ops, seed, false) {
         Ok(o) => o,
@@ -1918,8 +2590,16 @@ fn evaluate(ctl: &Ctl, rep: &mut Report, layer: u8, cfg: &LocalCfg, ops: &[Op], 
             let sig = format!("C10/panic/{}:{}", p.location, panic_class(&p.message));
             rep.violation(
                 &sig,
-                &format!("panic in the daemon while running a GR history: {}", p.message),
-                Json::obj(vec![("layer", Json::s(lname)), ("config", Json::s(format!("{:?}", cfg))), ("ops", ops_json(ops)), ("origin", Json::s(origin))]),
+                &format!(
+                    "panic in the daemon while running a GR history: {}",
+                    p.message
+                ),
+                Json::obj(vec![
+                    ("layer", Json::s(lname)),
+                    ("config", Json::s(format!("{:?}", cfg))),
+                    ("ops", ops_json(ops)),
+                    ("origin", Json::s(origin)),
+                ]),
             );
             return (true, true);
         }
@@ -1937,10 +2617,17 @@ fn evaluate(ctl: &Ctl, rep: &mut Report, layer: u8, cfg: &LocalCfg, ops: &[Op], 
     rep.count_n(&format!("{}:steps-judged", lname), out.judged);
     if let Some(e) = &out.herr {
         match e {
-            HErr::Panic(l, m) => rep.violation(&format!("C10/panic/{}:{}", l, panic_class(m)), m, ops_json(ops)),
+            HErr::Panic(l, m) => rep.violation(
+                &format!("C10/panic/{}:{}", l, panic_class(m)),
+                m,
+                ops_json(ops),
+            ),
             other => {
                 rep.count(&format!("{}:harness-error", lname));
-                rep.inconclusive(&format!("{} harness error: {:?} (config {:?}, origin {})", lname, other, cfg, origin));
+                rep.inconclusive(&format!(
+                    "{} harness error: {:?} (config {:?}, origin {})",
+                    lname, other, cfg, origin
+                ));
             }
         }
         return (tail_applied, false);
@@ -1965,7 +2652,12 @@ fn evaluate(ctl: &Ctl, rep: &mut Report, layer: u8, cfg: &LocalCfg, ops: &[Op], 
         rep.count(&format!("alarm:{}", f.clause));
     }
     // one report per signature; shrink the first occurrence
-    let fresh: Vec<Finding> = out.findings.iter().filter(|f| !rep.has_violation(&f.sig())).cloned().collect();
+    let fresh: Vec<Finding> = out
+        .findings
+        .iter()
+        .filter(|f| !rep.has_violation(&f.sig()))
+        .cloned()
+        .collect();
     for f in &out.findings {
         if rep.has_violation(&f.sig()) {
             rep.violation(&f.sig(), "", Json::Null);
@@ -2002,7 +2694,12 @@ fn evaluate(ctl: &Ctl, rep: &mut Report, layer: u8, cfg: &LocalCfg, ops: &[Op], 
         }
         let (trace, detail) = match exec(ctl, layer, cfg, &cur, seed, true) {
             Ok(o) => {
-                let d = o.findings.iter().find(|g| g.sig() == sig).map(|g| g.detail.clone()).unwrap_or(f.detail.clone());
+                let d = o
+                    .findings
+                    .iter()
+                    .find(|g| g.sig() == sig)
+                    .map(|g| g.detail.clone())
+                    .unwrap_or(f.detail.clone());
                 (o.trace, d)
             }
             Err(_) => (vec![], f.detail.clone()),
@@ -2028,39 +2725,103 @@ fn evaluate(ctl: &Ctl, rep: &mut Report, layer: u8, cfg: &LocalCfg, ops: &[Op], 
 
 /// Pick the L1 replica variant that behaves like the real session_loop / run (see `Replica`).
 fn calibrate(ctl: &Ctl, rep: &mut Report) -> bool {
-    let c = |gr, nbit, llgr| LocalCfg { gr, nbit, llgr, shards: 1, prefix_limit: false };
-    let s_gr = CapSpec { mp: 0b11, gr: Some((0b11, false, 0)), llgr: 0 };
-    let s_mix = CapSpec { mp: 0b11, gr: Some((0b01, true, 0)), llgr: 0b11 };
+    let c = |gr, nbit, llgr| LocalCfg {
+        gr,
+        nbit,
+        llgr,
+        shards: 1,
+        prefix_limit: false,
+    };
+    let s_gr = CapSpec {
+        mp: 0b11,
+        gr: Some((0b11, false, 0)),
+        llgr: 0,
+    };
+    let s_mix = CapSpec {
+        mp: 0b11,
+        gr: Some((0b01, true, 0)),
+        llgr: 0b11,
+    };
     let ann = |v: &mut Vec<Op>| {
-        v.push(Op::Announce { fam: 0, pfx: 0, kind: AttrKind::Plain });
-        v.push(Op::Announce { fam: 1, pfx: 0, kind: AttrKind::NoLlgr });
+        v.push(Op::Announce {
+            fam: 0,
+            pfx: 0,
+            kind: AttrKind::Plain,
+        });
+        v.push(Op::Announce {
+            fam: 1,
+            pfx: 0,
+            kind: AttrKind::NoLlgr,
+        });
     };
     let mut probes: Vec<(LocalCfg, Vec<Op>)> = Vec::new();
-    for how in [DropHow::Notif(6, 9), DropHow::Notif(6, 4), DropHow::ApiShutdown, DropHow::TcpRst, DropHow::Garbage] {
+    for how in [
+        DropHow::Notif(6, 9),
+        DropHow::Notif(6, 4),
+        DropHow::ApiShutdown,
+        DropHow::TcpRst,
+        DropHow::Garbage,
+    ] {
         for (cfg, spec) in [(c(0b11, false, 0), s_gr), (c(0b01, true, 0b11), s_mix)] {
-            let mut v = vec![Op::Connect { spec, outcome: ConnOutcome::Full }];
+            let mut v = vec![Op::Connect {
+                spec,
+                outcome: ConnOutcome::Full,
+            }];
             ann(&mut v);
             v.push(Op::Drop { how });
-            v.push(Op::Connect { spec, outcome: ConnOutcome::DieAfterOpen });
-            v.push(Op::Connect { spec, outcome: ConnOutcome::DieBeforeOpen });
+            v.push(Op::Connect {
+                spec,
+                outcome: ConnOutcome::DieAfterOpen,
+            });
+            v.push(Op::Connect {
+                spec,
+                outcome: ConnOutcome::DieBeforeOpen,
+            });
             v.push(Op::FireRestart);
             probes.push((cfg, v));
         }
     }
     // failed reconnection attempts while LLGR timers run (LLGR-only peer; GR followed by LLGR)
     for (cfg, spec, fire) in [
-        (c(0, false, 0b01), CapSpec { mp: 0b11, gr: None, llgr: 0b01 }, false),
-        (c(0b11, true, 0b11), CapSpec { mp: 0b11, gr: Some((0b11, true, 0)), llgr: 0b11 }, true),
+        (
+            c(0, false, 0b01),
+            CapSpec {
+                mp: 0b11,
+                gr: None,
+                llgr: 0b01,
+            },
+            false,
+        ),
+        (
+            c(0b11, true, 0b11),
+            CapSpec {
+                mp: 0b11,
+                gr: Some((0b11, true, 0)),
+                llgr: 0b11,
+            },
+            true,
+        ),
     ] {
-        let mut v = vec![Op::Connect { spec, outcome: ConnOutcome::Full }];
+        let mut v = vec![Op::Connect {
+            spec,
+            outcome: ConnOutcome::Full,
+        }];
         ann(&mut v);
-        v.push(Op::Drop { how: DropHow::TcpRst });
+        v.push(Op::Drop {
+            how: DropHow::TcpRst,
+        });
         if fire {
             v.push(Op::FireRestart);
         }
-        v.push(Op::Connect { spec, outcome: ConnOutcome::DieAfterOpen });
+        v.push(Op::Connect {
+            spec,
+            outcome: ConnOutcome::DieAfterOpen,
+        });
         v.push(Op::FireLlgr { fam: 0 });
-        v.push(Op::Connect { spec, outcome: ConnOutcome::DieBeforeOpen });
+        v.push(Op::Connect {
+            spec,
+            outcome: ConnOutcome::DieBeforeOpen,
+        });
         probes.push((cfg, v));
     }
     let mut real: Vec<Vec<String>> = Vec::new();
@@ -2079,9 +2840,11 @@ fn calibrate(ctl: &Ctl, rep: &mut Report) -> bool {
     }
     for cand in 0u8..8 {
         REPLICA.store(cand, std::sync::atomic::Ordering::Relaxed);
-        let ok = probes.iter().zip(real.iter()).all(|((cfg, ops), want)| match exec(ctl, 1, cfg, ops, 7, true) {
-            Ok(o) => o.herr.is_none() && &o.trace == want,
-            Err(_) => false,
+        let ok = probes.iter().zip(real.iter()).all(|((cfg, ops), want)| {
+            match exec(ctl, 1, cfg, ops, 7, true) {
+                Ok(o) => o.herr.is_none() && &o.trace == want,
+                Err(_) => false,
+            }
         });
         if ok {
             rep.count(&format!("calibration:replica-variant-{}", cand));
@@ -2095,11 +2858,18 @@ fn calibrate(ctl: &Ctl, rep: &mut Report) -> bool {
 }
 
 fn shard_index(params: &Params) -> usize {
-    params.shard.rsplit('-').next().and_then(|s| s.parse().ok()).unwrap_or(0)
+    params
+        .shard
+        .rsplit('-')
+        .next()
+        .and_then(|s| s.parse().ok())
+        .unwrap_or(0)
 }
 
 fn part_l1x(ctl: &Ctl, rep: &mut Report) {
-    let depth = ctl.params.get_u64("depth", if ctl.params.thorough() { 6 } else { 5 }) as usize;
+    let depth = ctl
+        .params
+        .get_u64("depth", if ctl.params.thorough() { 6 } else { 5 }) as usize;
     let nshards = ctl.params.get_u64("nshards", 1).max(1) as usize;
     let me = shard_index(ctl.params) % nshards;
     let mut item = 0usize;
@@ -2118,7 +2888,14 @@ fn part_l1x(ctl: &Ctl, rep: &mut Report) {
                 }
                 ops.extend(alpha[*li].1.iter().cloned());
             }
-            let origin = format!("l1x cfg={} letters={}", cname, seq.iter().map(|i| alpha[*i].0).collect::<Vec<_>>().join(","));
+            let origin = format!(
+                "l1x cfg={} letters={}",
+                cname,
+                seq.iter()
+                    .map(|i| alpha[*i].0)
+                    .collect::<Vec<_>>()
+                    .join(",")
+            );
             let r = evaluate(ctl, rep, 1, &cfg, &ops, 0, &origin, tail_from);
             if r.0 {
                 rep.count(&format!("l1x:sequences:d{}", seq.len()));
@@ -2126,7 +2903,10 @@ fn part_l1x(ctl: &Ctl, rep: &mut Report) {
             r
         };
         for first in 0..alpha.len() {
-            if !matches!(alpha[first].1[0], Op::Drop { .. } | Op::Announce { .. } | Op::Eor { .. }) {
+            if !matches!(
+                alpha[first].1[0],
+                Op::Drop { .. } | Op::Announce { .. } | Op::Eor { .. }
+            ) {
                 continue;
             }
             // every shard needs the verdict of the one-letter sequence to know whether to extend it
@@ -2169,7 +2949,14 @@ fn part_l1x(ctl: &Ctl, rep: &mut Report) {
 
 fn part_random(ctl: &Ctl, rep: &mut Report, layer: u8) {
     let lname = if layer == 1 { "l1r" } else { "l2" };
-    let count = ctl.params.get_u64("count", if layer == 1 { ctl.params.n(1500, 40000) } else { ctl.params.n(80, 1200) });
+    let count = ctl.params.get_u64(
+        "count",
+        if layer == 1 {
+            ctl.params.n(1500, 40000)
+        } else {
+            ctl.params.n(80, 1200)
+        },
+    );
     let only = ctl.params.get("only").and_then(|s| s.parse::<u64>().ok());
     let mut rng = Rng::new(ctl.params.seed ^ (0xC10 + layer as u64));
     for idx in 0..count {
@@ -2191,7 +2978,10 @@ fn part_random(ctl: &Ctl, rep: &mut Report, layer: u8) {
         if only.is_some_and(|o| o != idx) {
             continue;
         }
-        let origin = format!("{} history {} (VERIF_PART={} VERIF_ONLY={})", lname, idx, lname, idx);
+        let origin = format!(
+            "{} history {} (VERIF_PART={} VERIF_ONLY={})",
+            lname, idx, lname, idx
+        );
         evaluate(ctl, rep, layer, &cfg, &ops, seed, &origin, 0);
     }
 }
@@ -2200,9 +2990,14 @@ fn part_random(ctl: &Ctl, rep: &mut Report, layer: u8) {
 fn run() {
     let params = Params::from_args_env();
     let mut rep = Report::new("C10", &params);
-    let rt = tokio::runtime::Builder::new_current_thread().enable_all().build().expect("runtime");
+    let rt = tokio::runtime::Builder::new_current_thread()
+        .enable_all()
+        .build()
+        .expect("runtime");
     let part = params.get("part").unwrap_or("all").to_string();
-    let listener = match rt.block_on(crate::verif_hooks::bind_retry("127.0.0.1:0".parse().unwrap())) {
+    let listener = match rt.block_on(crate::verif_hooks::bind_retry(
+        "127.0.0.1:0".parse().unwrap(),
+    )) {
         Ok(l) => Some(l),
         Err(e) => {
             rep.inconclusive(&format!("cannot bind a loopback listener: {}", e));
@@ -2211,8 +3006,16 @@ fn run() {
         }
     };
     {
-        let ctl = Ctl { rt: &rt, listener: listener.as_ref(), params: &params };
-        let l1_ok = if part != "l2" { calibrate(&ctl, &mut rep) } else { false };
+        let ctl = Ctl {
+            rt: &rt,
+            listener: listener.as_ref(),
+            params: &params,
+        };
+        let l1_ok = if part != "l2" {
+            calibrate(&ctl, &mut rep)
+        } else {
+            false
+        };
         if l1_ok && (part == "l1x" || part == "all") {
             part_l1x(&ctl, &mut rep);
         }
